@@ -243,11 +243,22 @@ func (b *builder) assertionEl(a Assn, n int) *etree.Element {
 		el = signed
 	}
 	switch a.Wrap {
-	case "e", "b", "b-empty", "b-blank", "b-ivonly", "b-truncated", "b-flipped", "b-nokey":
+	case "e", "b", "b-empty", "b-blank", "b-ivonly", "b-truncated", "b-flipped", "b-nokey", "b-noroot-empty", "b-noroot-space", "b-noroot-comment", "b-noroot-pi", "b-key-empty", "b-key-truncated":
 		doc := etree.NewDocument()
 		doc.SetRoot(el)
 		buf, err := doc.WriteToBytes()
 		must(err)
+		// a correctly encrypted plaintext that holds no element at all (anyone can encrypt to the SP's certificate)
+		switch a.Wrap {
+		case "b-noroot-empty":
+			buf = []byte{}
+		case "b-noroot-space":
+			buf = []byte("  \n ")
+		case "b-noroot-comment":
+			buf = []byte("<!-- no assertion here -->")
+		case "b-noroot-pi":
+			buf = []byte("<?xml version=\"1.0\" encoding=\"UTF-8\"?>\n")
+		}
 		cert := b.spCert
 		if a.Wrap == "b" {
 			cert = b.badCert
@@ -258,12 +269,16 @@ func (b *builder) assertionEl(a Assn, n int) *etree.Element {
 		ed, err := enc.Encrypt(cert, buf, nil)
 		must(err)
 		ed.CreateAttr("Type", "http://www.w3.org/2001/04/xmlenc#Element")
-		// malformed content ciphertext under an intact, correctly wrapped key (the content CipherValue is the last one in the element)
+		// malformed content ciphertext under an intact, correctly wrapped key: the content CipherValue is the one directly
+		// below EncryptedData/CipherData (the other one, below KeyInfo/EncryptedKey, is the wrapped key); "-key" flavours
+		// damage the wrapped key's value instead
 		var cvs []*etree.Element
-		for _, x := range ed.FindElements(".//CipherValue") {
-			cvs = append(cvs, x)
+		if cd := ed.SelectElement("CipherData"); cd != nil {
+			if cv := cd.SelectElement("CipherValue"); cv != nil {
+				cvs = append(cvs, cv)
+			}
 		}
-		if len(cvs) > 0 && strings.HasPrefix(a.Wrap, "b-") {
+		if len(cvs) > 0 && strings.HasPrefix(a.Wrap, "b-") && !strings.HasPrefix(a.Wrap, "b-noroot") {
 			cv := cvs[len(cvs)-1]
 			raw, _ := base64.StdEncoding.DecodeString(cv.Text())
 			switch a.Wrap {
@@ -282,6 +297,17 @@ func (b *builder) assertionEl(a Assn, n int) *etree.Element {
 			case "b-nokey":
 				if ek := ed.FindElement(".//EncryptedKey"); ek != nil {
 					ek.Parent().RemoveChild(ek)
+				}
+			case "b-key-empty", "b-key-truncated":
+				if ek := ed.FindElement(".//EncryptedKey"); ek != nil {
+					if kcv := ek.FindElement("./CipherData/CipherValue"); kcv != nil {
+						kraw, _ := base64.StdEncoding.DecodeString(kcv.Text())
+						if a.Wrap == "b-key-empty" {
+							kcv.SetText("")
+						} else {
+							kcv.SetText(base64.StdEncoding.EncodeToString(kraw[:len(kraw)-9]))
+						}
+					}
 				}
 			}
 		}
